@@ -17,6 +17,9 @@ struct Ctx<'a> {
 }
 
 impl<'a> Ctx<'a> {
+    fn exhausted(&self) -> bool {
+        self.used >= self.budget || std::time::Instant::now() > self.deadline
+    }
     fn still_fails(&mut self, sc: &Scenario) -> Option<Violation> {
         if self.used >= self.budget || std::time::Instant::now() > self.deadline {
             return None;
@@ -86,7 +89,7 @@ pub fn minimise(prop: &dyn Property, sc: &Scenario, v: &Violation, root: &Path, 
         }
     }
     let mut progress = true;
-    while progress && ctx.used < ctx.budget {
+    while progress && !ctx.exhausted() {
         progress = false;
         // 1. drop steps
         let mut i = best.steps.len();
@@ -266,9 +269,14 @@ pub fn minimise(prop: &dyn Property, sc: &Scenario, v: &Violation, root: &Path, 
                 }
                 best = cand;
                 let mut block = (list.len() / 2).max(1);
-                while block >= 1 {
+                // a run that hit its step budget records hundreds of thousands of choices:
+                // delta-debugging those is pointless (and quadratic)
+                if list.len() > 20_000 {
+                    block = 0;
+                }
+                while block >= 1 && !ctx.exhausted() {
                     let mut start = 0;
-                    while start < list.len() {
+                    while start < list.len() && !ctx.exhausted() {
                         let end = (start + block).min(list.len());
                         if list[start..end].iter().any(|&c| c != 0) {
                             let mut trial = list.clone();
